@@ -22,6 +22,33 @@ Families
              the problem (oracle only); the D7 inputs (constant matrices, labels absent from the matrix; fixed
              upstream by 9a5d806) are fixed regression inputs, signature `C09:D7-problem-wrapper-absent-variable`
 
+  (round 3)
+  plateau    every coefficient the same number (many minimisers, many repeated objective values; plain dicts also with
+             labels that only occur with a zero coefficient, so every minimiser comes 2^k times), mostly all_solutions
+  raise      `valid` raises the harness' own exception on some assignments (exactly one / a variable subset's parity /
+             a pair relation / a threshold / none), for the free functions and — by shadowing `is_solution_valid` on
+             the instance — for the methods.  Oracle only (the model's `valid` is total): if `valid` raises for some
+             assignment over the model's variables the very same exception object must reach the caller, `valid` must
+             not be called again afterwards, and the model must be unchanged by value; on a constant model and when no
+             assignment raises, the ordinary oracle applies.  Signature `C09:raise`
+  multi      several calls on ONE object with in-place edits between them (set / += / cancel a variable / offset /
+             pop the offset / new variable / refresh() / add a constraint; composite edits such as cancel + refresh
+             (+ new variable), which shrink and renumber `_reverse_mapping`): every call is prepared from the state the
+             object is in at that moment and checked like a single call (correspondence + oracle)
+  also: mixed-type labels (int / str / tuple in one model, ids spread over 0..9), n = 9 (the harness's limit),
+  hist/bhist cases that call refresh() after the cancelling edits (cancelled variables, refreshed bookkeeping),
+  predicates that depend on a subset of the variables (`subpar`, `pair`; sometimes on a label the model lacks),
+  accept exactly one assignment (`only`) or exactly the non-minimal assignments (`nonmin`), and — const family —
+  constant PCBO / PCSO whose recorded constraint rejects `{}`.
+
+The corner (constant model, `valid({})` false): the property's clause 3 ("no assignment valid => objective None")
+and clause 4 ("constant model => the constant with an empty assignment") contradict each other there.  The code
+follows clause 4 (it returns before the loop and never calls `valid`; Lean: `constant_model_ignores_valid`,
+`no_valid_none_iff`), the oracle judges the corner by clause 4, and every run records which clause the real code
+followed in the histogram (`corner:constant-model+valid-rejects-{}:objective=...`).  In that corner the oracle accepts
+either objective (the constant, or `None`) with the empty assignment — the property text cannot decide — and reports
+anything else; a switch of the code to clause 3 would still show up as a correspondence difference.
+
 "The model's variables" in the oracle: the labels of the stored keys for plain dicts and Matrix objects (the code
 scans the keys); for the labelled BO types the variables the object itself reports (`variables`, which the
 bookkeeping keeps in step with `mapping` / `num_binary_variables`; a variable whose terms cancelled in place stays
@@ -41,8 +68,10 @@ from .common import Labels, fs, exc_name, canon_terms, ANC
 
 CEXT = "plain"
 RULE = ("models with 1..8 variables and 1..8 terms, small integer / Fraction / dyadic float coefficients (ties frequent), "
-        "offsets, all ten model types + plain dicts with raw keys, predicate menu always/never/parity/threshold/"
-        "excluded assignment/table, both modes, four free functions and the methods; a case is non-trivial when the "
+        "offsets, all ten model types + plain dicts with raw keys, labels int/str/tuple/mixed, predicate menu always/"
+        "never/parity/threshold/excluded assignment/exactly one/exactly the non-minimisers/parity of a variable subset/"
+        "pair relation/table of is_solution_valid, raising predicates, both modes, four free functions and the methods, "
+        "n up to 9, plateaus, multi-call histories with edits between the calls; a case is non-trivial when the "
         "model has >= 2 variables and >= 2 terms and at least one assignment is valid; distinct = distinct case JSON")
 ASSUMPTIONS = ["for the labelled BO types the model's variables are those the object reports (`variables` = the labels of "
                "`mapping`); cancelled variables stay until refresh() (C14's subject). Plain dicts and Matrix types: the labels "
@@ -140,7 +169,10 @@ def gen_terms(rng, n, fn, kind, nterms=None):
     return terms
 
 def gen_pred(rng, n, spin):
-    t = rng.choice(["always", "always", "never", "parity", "thr", "thr", "excl"])
+    t = rng.choice(["always", "always", "never", "parity", "thr", "thr", "excl", "subpar", "subpar", "pair", "only",
+                    "nonmin"])
+    if t in ("subpar", "pair", "only"):
+        return {"t": t, "x": None}           # filled in once the variables are known (`fill_pred`)
     if t == "parity":
         return {"t": "parity", "r": rng.randrange(2)}
     if t == "thr":
@@ -203,6 +235,8 @@ def gen_hist_case(rng, via, kinds=None, family="mhist"):
          "valid": {"t": "always"} if via == "method" else gen_pred(rng, n, fn in SPIN_FN)}
     if c["num"] == "float" and not all(dyadic(v) for _, v in terms):
         c["num"] = "frac"
+    if rng.random() < 0.35:
+        c["refresh"] = True
     return c
 
 def apply_hist(obj, hist, L):
@@ -286,7 +320,14 @@ def build(case):
         o2 = apply_hist(obj, case["hist"], L)
         if o2 is not obj:
             return obj, None
-    return obj, ("consistent" if consistent(obj) else "stale-cache")
+        if case.get("refresh"):
+            obj.refresh()                  # cancelled variables, refreshed bookkeeping
+    return obj, state_tag(obj)
+
+def state_tag(obj):
+    if type(obj) is dict:
+        return "dict"
+    return "consistent" if consistent(obj) else "stale-cache"
 
 def d1_input(case, tag):
     """the case exercises the bookkeeping paths of D1: a labelled type with a zero assignment, a repeated label in
@@ -301,11 +342,28 @@ def fill_pred(case, obj, L):
     pred = dict(case["valid"])
     labs = model_vars(obj)
     spin = case["fn"] in SPIN_FN
-    if pred["t"] == "excl" and pred.get("x") is None:
-        import random
-        r = random.Random(case["seed"])
-        ids = sorted(L.ident(l) for l in labs)
-        pred["x"] = [[i, str(r.choice((1, -1) if spin else (0, 1)))] for i in ids]
+    import random
+    r = random.Random(case["seed"])
+    ids = sorted(L.ident(l) for l in labs)
+    dom = (1, -1) if spin else (0, 1)
+    if pred["t"] in ("excl", "only") and pred.get("x") is None:
+        pred["x"] = [[i, str(r.choice(dom))] for i in ids]
+    if pred["t"] == "subpar" and pred.get("x") is None:
+        # depends on a subset of the variables only (sometimes also on a label the model does not have)
+        sub = [i for i in ids if r.random() < 0.5] or ids[:1]
+        if r.random() < 0.15:
+            sub = sub + [max(ids + [0]) + 1]
+        pred = {"t": "subpar", "ids": sub, "r": r.randrange(2)}
+    if pred["t"] == "pair" and pred.get("x") is None:
+        a, b = (r.sample(ids, 2) if len(ids) >= 2 else (ids + [0, 1])[:2])
+        pred = {"t": "pair", "a": a, "b": b, "eq": r.random() < 0.5}
+    if pred["t"] == "nonmin":
+        # accept exactly the assignments that do NOT minimise the model (the input is computed here, from the
+        # stored terms, by plain enumeration)
+        tabv = [(poly_value(obj, dict(zip(labs, vals))), vals) for vals in itertools.product(dom, repeat=len(labs))]
+        m = min(v for v, _ in tabv)
+        pred = {"t": "table", "src": "nonmin",
+                "xs": [sorted([L.ident(l), str(v)] for l, v in zip(labs, vals)) for val, vals in tabv if val != m]}
     if case["via"] == "method" and hasattr(obj, "constraints") and obj.constraints:
         # the predicate of the method is the object's own is_solution_valid, passed to the model as a table
         tab = []
@@ -334,6 +392,15 @@ def make_valid(pred, L):
     if t == "excl":
         e = {lab_of(L, i): int(v) for i, v in pred["x"]}
         return lambda x: x != e
+    if t == "only":
+        e = {lab_of(L, i): int(v) for i, v in pred["x"]}
+        return lambda x: x == e
+    if t == "subpar":
+        labs = [lab_of(L, i) for i in pred["ids"]]
+        return lambda x: sum(1 for l in labs if x.get(l) == 1) % 2 == pred["r"]
+    if t == "pair":
+        la, lb = lab_of(L, pred["a"]), lab_of(L, pred["b"])
+        return lambda x: (x.get(la) == x.get(lb)) == pred["eq"]
     if t == "table":
         tab = [{lab_of(L, i): int(v) for i, v in e} for e in pred["xs"]]
         return lambda x: any(x == e for e in tab)
@@ -470,7 +537,9 @@ def oracle(case, d0, pred, L, res, log, V):
     if not key_labels(d0):
         # constant model (clause 4 of the property; `valid` is not consulted by that clause)
         const = Fraction(d0.get((), 0))
-        if free and (obj_v is None or Fraction(obj_v) != const):
+        if free and obj_v is None and not labs and not valid({}):
+            pass        # the overlap of clauses 3 and 4: `None` is what clause 3 demands (the code follows clause 4)
+        elif free and (obj_v is None or Fraction(obj_v) != const):
             return "constant model: objective %r, constant %s" % (obj_v, const)
         if sol != ([{}] if case["all"] else {}):
             return "constant model: solution %r is not the empty assignment" % (sol,)
@@ -570,6 +639,17 @@ def hashable(o):
         return ("l", tuple(hashable(x) for x in o))
     return repr(o)
 
+def conv_canon(cls):
+    """canonical form of a converted solution.  `NumberPartitioning.convert_solution` lists the numbers of each part
+    in the iteration order of the solution dict — which order the solver happened to insert the labels in is not
+    part of the result (a partition), so each part is compared as a multiset; everything else as it is."""
+    if cls == "NumberPartitioning":
+        return lambda o: hashable(tuple(sorted(part, key=repr) if isinstance(part, (list, tuple)) else part for part in o)
+                                  if isinstance(o, tuple) else o)
+    return hashable
+
+DEFERRED = []      # (driver line, callback) pairs of the problem family, run after the main batch
+
 def run_problem(ctx, case):
     """`Problem.solve_bruteforce` (the classes that inherit it).  Oracle from the property text: the wrapper returns
     the converted form of an assignment of ALL `num_binary_variables` labels of the problem that minimises
@@ -609,19 +689,47 @@ def run_problem(ctx, case):
         table.append((poly_value(Q, x), x))
     m = min(v for v, _ in table)
     try:
-        want = [hashable(prob.convert_solution(x)) for v, x in table if v == m]
+        hashable_ = conv_canon(case["cls"])
+        want = [hashable_(prob.convert_solution(x)) for v, x in table if v == m]
     except Exception:
         ctx.count("problem:convert-raises:" + case["cls"]); return
     if case["all"]:
         if not isinstance(got, list):
             ctx.violation(sig, case, "%s.solve_bruteforce(all_solutions=True) returns %r, not a list" % (case["cls"], got))
-        elif sorted(map(repr, map(hashable, got))) != sorted(map(repr, want)):
+        elif sorted(map(repr, map(hashable_, got))) != sorted(map(repr, want)):
             ctx.violation(sig, case, "%s%s.solve_bruteforce(all_solutions=True) returns %r; the converted minimisers of "
                           "to_qubo() over all %d labels are %r (each exactly once)"
                           % (case["cls"], case.get("fixed", ""), got, N, want))
-    elif hashable(got) not in want:
+    elif hashable_(got) not in want:
         ctx.violation(sig, case, "%s%s.solve_bruteforce() returns %r, which is not the converted form of a minimiser of "
                       "to_qubo() over all %d labels (those are %r)" % (case["cls"], case.get("fixed", ""), got, N, want))
+    # correspondence with the Lean wrapper model (`Qv.Brute.problemSolve`, theorem `problem_wrapper`): the padded
+    # dict and the assignments, pushed through the problem's own convert_solution
+    if not all(isinstance(k, tuple) and all(isinstance(l, int) for l in k) for k in Q):
+        return
+    line = {"op": "problem", "terms": [[list(k), fs(v)] for k, v in Q.items()], "n": N, "all": case["all"]}
+    def finish(m, prob=prob, got=got, case=case, hashable_=hashable_, Q=dict(Q), N=N):
+        ctx.traces += 1
+        ctx.count("problem:model-compared")
+        if "err" in m["res"] or "err" in m["many"]:
+            ctx.diff("problem", case, repr(got), m["res"]); return
+        Qp = dict(Q)
+        for i in range(N):
+            Qp.setdefault((i,), 0)
+        if sorted(([sorted(k), fs(v)] for k, v in Qp.items()), key=lambda t: (t[0], t[1])) != \
+                sorted(([sorted(k), v] for k, v in m["pad"]), key=lambda t: (t[0], t[1])):
+            ctx.diff("problem", case, "padded dict", m["pad"]); return
+        conv = lambda a: hashable_(prob.convert_solution({i: int(Fraction(v)) for i, v in a}))
+        try:
+            many = sorted(repr(conv(a)) for a in m["many"]["many"])
+        except Exception:
+            ctx.count("problem:convert-raises-on-model"); return
+        if case["all"]:
+            if sorted(map(repr, map(hashable_, got))) != many:
+                ctx.diff("problem", case, repr(got), many)
+        elif repr(hashable_(got)) not in many:
+            ctx.diff("problem", case, repr(got), many)
+    DEFERRED.append((line, finish))
 
 # ------------------------------------------------------------------ exhaustive constant family
 
@@ -643,6 +751,13 @@ def const_cases():
                     if kind != "dict" and FN_OF_KIND[kind] == fn:
                         out.append({"family": "const", "fn": fn, "kind": kind, "n": 0, "terms": terms, "labels": "int",
                                     "num": "frac", "all": al, "via": "method", "valid": {"t": "always"}, "seed": 0})
+                        if kind in ("PCBO", "PCSO"):
+                            # constant model whose recorded constraint `1 == 0` / `-1 > 0` rejects the empty
+                            # assignment: is_solution_valid({}) is False, the method still returns {} / [{}]
+                            for con in ({"rel": "eq", "p": [[[], "1"]]}, {"rel": "gt", "p": [[[], "-1"]]}):
+                                out.append({"family": "const", "fn": fn, "kind": kind, "n": 0, "terms": terms,
+                                            "labels": "int", "num": "int", "all": al, "via": "method",
+                                            "valid": {"t": "always"}, "seed": 0, "cons": [con]})
     return out
 
 def malformed_case(rng):
@@ -680,10 +795,300 @@ def bhist_case(rng, via):
         c["hist"] = [{"op": rng.choice(HIST_OPS), "var": rng.randrange(n + 1)}]
     return c
 
+# ------------------------------------------------------------------ round-3 families
+
+def mixify(c, rng):
+    """labels of mixed Python types (int / str / tuple in one model): the abstract ids are spread over 0..9 so that
+    the three label types of style "mixed" all occur"""
+    if c["kind"] in MATRIX or c["n"] > 10:
+        return c
+    idmap = sorted(rng.sample(range(10), c["n"]))
+    f = lambda i: idmap[i] if i < len(idmap) else i
+    c = dict(c, labels="mixed", terms=[[[f(i) for i in k], v] for k, v in c["terms"]])
+    if c.get("cons"):
+        c["cons"] = [dict(con, p=[[[f(i) for i in k], v] for k, v in con["p"]]) for con in c["cons"]]
+    if c.get("hist"):
+        c["hist"] = [dict(h, var=f(h["var"])) for h in c["hist"]]
+    return c
+
+def huge_case(rng):
+    """n at the harness's limit (9 variables, 512 assignments)"""
+    c = gen_case(rng, "free")
+    fn, kind = c["fn"], c["kind"]
+    c["n"] = 9
+    terms = gen_terms(rng, 9, fn, kind, nterms=rng.randint(6, 12))
+    seen = {i for k, _ in terms for i in k}
+    terms += [[[i], gen_coef(rng, False)] for i in range(9) if i not in seen]
+    c["terms"] = terms
+    if c["num"] == "float" and not all(dyadic(v) for _, v in terms):
+        c["num"] = "frac"
+    c["valid"] = gen_pred(rng, 9, fn in SPIN_FN)
+    return c
+
+def tie_case(rng, family):
+    """many minimisers and many repeated objective values: every coefficient is the same number; plain dicts also
+    carry labels that occur with a zero coefficient only (free variables: every minimiser comes 2^k times)"""
+    c = gen_case(rng, family)
+    coef = rng.choice(["1", "-1", "2", "-1/2"])
+    n = c["n"] = min(c["n"], 5)
+    deg2 = c["fn"] in ("qubo", "quso") or c["kind"] in DEG2
+    terms = []
+    for _ in range(rng.randint(1, 5)):
+        ln = min(n, rng.choice([1, 2, 2] if deg2 else [1, 2, 2, 3]))
+        k = sorted(rng.sample(range(n), ln))
+        if k not in [t[0] for t in terms]:
+            terms.append([k, coef])
+    if c["kind"] == "dict":
+        terms += [[[i], "0"] for i in range(n) if rng.random() < 0.4]
+    if rng.random() < 0.3:
+        terms.append([[], coef])
+    c.update(terms=terms, num="frac" if "/" in coef else c["num"], all=rng.random() < 0.8)
+    c.pop("cons", None)
+    if c["num"] == "float" and not dyadic(coef):
+        c["num"] = "frac"
+    c["family"] = "plateau"
+    return c
+
+# --- `valid` raises on some assignments: does the exception reach the caller unchanged, is the model unchanged?
+
+class ValidBoom(Exception):
+    """raised by the harness' own `valid` callback"""
+
+def raise_case(rng):
+    via = rng.choice(["free", "free", "method"])
+    c = gen_case(rng, via)
+    c["family"] = "raise"
+    c["n"] = min(c["n"], 5)
+    c["terms"] = [[[i for i in k if i < c["n"]], v] for k, v in c["terms"]]
+    t = rng.choice(["only", "only", "subpar", "pair", "never", "thr"])
+    c["raise"] = ({"t": t, "x": None} if t in ("only", "subpar", "pair") else
+                  {"t": "never"} if t == "never" else {"t": "thr", "cmp": "ge", "k": rng.randint(1, c["n"] + 1)})
+    return c
+
+def run_raise(ctx, c):
+    L = Labels(c["labels"])
+    obj, tag = build(c)
+    if tag is None:
+        return
+    V = model_vars(obj)
+    if len(V) > 9:
+        return
+    pred = fill_pred(c, obj, L)
+    if pred is None:
+        ctx.count("raise:pc-absent-variable"); return
+    rpred = fill_pred(dict(c, valid=c["raise"], seed=c["seed"] ^ 0x5A5A, via="free"), obj, L)
+    valid, boom = make_valid(pred, L), make_valid(rpred, L)
+    spin = c["fn"] in SPIN_FN
+    dom = (1, -1) if spin else (0, 1)
+    R = [x for x in (dict(zip(V, vals)) for vals in itertools.product(dom, repeat=len(V))) if boom(x)]
+    method = c["via"] == "method"
+    real = obj.is_solution_valid if method else valid
+    raised, calls = [], []
+    def wrapped(x):
+        calls.append(dict(x))
+        if boom(x):
+            e = ValidBoom(dict(x)); raised.append(e); raise e
+        return real(x)
+    d0 = copy.deepcopy(dict(obj))
+    before = snap(obj)
+    got, res = None, None
+    try:
+        if method:
+            obj.is_solution_valid = wrapped          # the instance attribute shadows the method
+            try:
+                res = (None, obj.solve_bruteforce(c["all"]))
+            finally:
+                del obj.is_solution_valid
+        else:
+            res = free_fn(c["fn"])(obj, c["all"], wrapped)
+    except BaseException as e:                       # noqa — the point is to see exactly what comes out
+        got = e
+    changed = snap(obj) != before
+    rec = dict(c, valid=pred if pred["t"] != "table" else ({"t": "nonmin"} if pred.get("src") else {"t": "always"}))
+    const = not key_labels(d0)
+    ctx.traces += 1
+    ctx.case(rec, len(V) >= 2 and bool(R))
+    ctx.count("raise:%s:%s" % ("method" if method else c["fn"],
+                               "constant-model" if const else "raises" if R else "no-raising-assignment"))
+    why = None
+    if const or not R:
+        # clause 4 (the constant is returned, `valid` plays no role) resp. an ordinary call
+        if got is not None:
+            why = "%r came out of a call on which valid raises for no assignment over the model's variables" % (got,)
+        else:
+            why = oracle(c, d0, pred, L, res, ["model changed by the call"] if changed else [], V)
+    else:
+        if got is None:
+            why = ("valid raised ValidBoom on %d of the %d assignment(s) it was called with, but the call returned %r"
+                   % (len(raised), len(calls), res))
+        elif not raised or got is not raised[-1]:
+            why = ("valid raised %r; the exception that reached the caller is a different object: %r"
+                   % (raised[-1:] or None, got))
+        elif len(raised) != 1:
+            why = "valid raised %d times during one call (an exception was swallowed and the loop went on)" % len(raised)
+        elif got.args[0] not in R or set(got.args[0]) != set(V):
+            why = "valid was called with %r, which is not an assignment over exactly the model's variables %r" % (got.args[0], V)
+        elif changed:
+            why = "the model was left changed by a call that propagated the exception of valid"
+    if why:
+        ctx.violation("C09:raise", rec, why)
+
+# --- several calls on the same object, with edits in between (solve, mutate, solve, ...)
+
+MUT_OPS = ["set", "add", "cancel", "offset", "newvar", "refresh", "cons", "popoffset"]
+
+def gen_key(rng, ids, deg2):
+    ln = min(len(ids), rng.choice([1, 2, 2] if deg2 else [1, 2, 2, 3]))
+    return sorted(rng.sample(ids, ln))
+
+def multi_case(rng):
+    kind = rng.choice(ALL_KINDS)
+    # constraints add penalty terms of degree 3 and more: a PCBO / PCSO is only handed to the general solvers
+    deg2 = kind in DEG2 or (rng.random() < 0.5 and kind not in ("PCBO", "PCSO"))
+    if kind == "dict":
+        fns = ["pubo", "qubo", "puso", "quso"] if deg2 else ["pubo", "puso"]
+        fns = [rng.choice(fns)]                      # one reading (boolean / spin) per dict
+        if fns[0] in BOOL_FN:
+            fns = [f for f in BOOL_FN if deg2 or f == "pubo"]
+        else:
+            fns = [f for f in SPIN_FN if deg2 or f == "puso"]
+    else:
+        fns = [f for f in KINDS_OF_FN if kind in KINDS_OF_FN[f] and (deg2 or f in ("pubo", "puso"))]
+    n = rng.randint(2, 4)
+    gfn = "qubo" if deg2 else "pubo"
+    c = {"family": "multi", "kind": kind, "fn": fns[0], "n": n, "labels": "int" if kind in MATRIX else rng.choice(Labels.STYLES),
+         "terms": gen_terms(rng, n, gfn, kind, nterms=rng.randint(1, 5)),
+         "num": rng.choice(["int", "int", "frac"]), "all": False, "via": "free", "valid": {"t": "always"},
+         "seed": rng.randrange(1 << 30)}
+    if kind in ("PCBO", "PCSO") and rng.random() < 0.5:
+        c["cons"] = gen_constraints(rng, n, kind)
+    if kind == "PCSO":
+        # spin constraints (now or in a later edit) bring float coefficients: keep everything dyadic (DESIGN.md §3.2)
+        c["terms"] = [[k, v if dyadic(v) else "1"] for k, v in c["terms"]]
+    steps, nxt = [], n
+    def one_edit(op):
+        nonlocal nxt
+        ids = list(range(nxt))
+        mut = None
+        if op in ("set", "add"):
+            mut = {"op": op, "key": gen_key(rng, ids, deg2), "v": gen_coef(rng, op == "set")}
+        elif op == "cancel":
+            mut = {"op": "cancel", "how": rng.choice(HIST_OPS), "var": rng.randrange(nxt)}
+        elif op == "offset":
+            mut = {"op": "offset", "v": gen_coef(rng, False)}
+        elif op == "newvar":
+            mut = {"op": "set", "key": sorted({nxt, rng.randrange(nxt)} if rng.random() < 0.5 else {nxt}),
+                   "v": gen_coef(rng, False)}
+            nxt += 1
+        elif op == "cons" and kind in ("PCBO", "PCSO"):
+            mut = {"op": "cons", "con": gen_constraints(rng, min(nxt, 4), kind)[0]}
+        elif op == "popoffset":
+            mut = {"op": "popoffset"}
+        else:
+            mut = {"op": "refresh"}
+        if kind == "PCSO" and mut.get("v") and not dyadic(mut["v"]):
+            mut["v"] = "1"
+        return mut
+    for k in range(rng.randint(2, 4)):
+        mut = None
+        if k > 0:
+            r = rng.random()
+            if r < 0.2:
+                ops = ["cancel", "refresh"]          # the variable list shrinks and is renumbered
+            elif r < 0.3:
+                ops = ["cancel", "refresh", "newvar"]  # same count, different variables
+            else:
+                ops = [rng.choice(MUT_OPS) for _ in range(rng.choice([1, 1, 2, 3]))]
+            mut = [one_edit(op) for op in ops]
+        via = "method" if kind != "dict" and rng.random() < 0.5 else "free"
+        fn = FN_OF_KIND[kind] if via == "method" else rng.choice(fns)
+        if via == "method" and fn not in fns:
+            via, fn = "free", rng.choice(fns)
+        steps.append({"mut": mut, "via": via, "fn": fn, "all": rng.random() < 0.5,
+                      "valid": {"t": "always"} if via == "method" else gen_pred(rng, nxt, fn in SPIN_FN)})
+    c["steps"] = steps
+    return c
+
+def apply_mut(obj, mut, L, style):
+    plain = type(obj) is dict
+    op = mut["op"]
+    if op in ("set", "add"):
+        key, v = tuple(lab_of(L, i) for i in mut["key"]), num_of(mut["v"], style)
+        if op == "set":
+            obj[key] = v
+        elif plain:
+            obj[key] = obj.get(key, 0) + v
+        else:
+            obj[key] += v
+    elif op == "cancel":
+        if plain:
+            for k in [k for k in list(obj) if lab_of(L, mut["var"]) in k]:
+                del obj[k]
+        else:
+            apply_hist(obj, [{"op": mut["how"], "var": mut["var"]}], L)
+    elif op == "offset":
+        v = num_of(mut["v"], style)
+        if plain:
+            obj[()] = obj.get((), 0) + v
+        else:
+            obj += v
+    elif op == "popoffset":
+        obj.pop((), None)
+    elif op == "refresh":
+        if not plain:
+            obj.refresh()
+    elif op == "cons":
+        con = mut["con"]
+        p = {tuple(lab_of(L, i) for i in key): num_of(v, "int") for key, v in con["p"]}
+        getattr(obj, "add_constraint_%s_zero" % con["rel"])(p)
+
+def run_multi(ctx, c):
+    """build the object once, then: call, edit in place, call again, ... — every call is prepared from the state
+    the object is in at that moment and checked like a single call (correspondence + oracle)"""
+    L = Labels(c["labels"])
+    obj, tag = build(c)
+    out = []
+    if tag is None:
+        return out
+    for k, st in enumerate(c["steps"]):
+        if st["mut"]:
+            try:
+                for mut in st["mut"]:
+                    apply_mut(obj, mut, L, c["num"])
+                    ctx.count("multi:edit:" + mut["op"])
+            except Exception as e:
+                ctx.count("multi:edit-raises:" + exc_name(e))
+                break
+        cs = {k2: v for k2, v in c.items() if k2 != "steps"}
+        cs.update(fn=st["fn"], via=st["via"], all=st["all"], valid=st["valid"], step=k, seed=c["seed"] + k, multi=c,
+                  terms=[[[L.ident(l) for l in key], fs(v)] for key, v in obj.items()])
+        e = prepare(ctx, cs, L, obj, state_tag(obj), eager=True)
+        if e is not None:
+            out.append(e)
+            ctx.count("multi:call-%d" % k)
+    return out
+
 # ------------------------------------------------------------------ driver of the check
 
 def nontrivial(case, obj, n_valid):
     return len(key_labels(obj)) >= 2 and len(obj) >= 2 and n_valid > 0
+
+def prepare(ctx, c, L, obj, tag, eager=False):
+    """everything that must be read off the object *before* the call: the model's variables, the completed
+    predicate, the driver line, a plain copy of the terms.  With eager=True the real call is made right away (the
+    object is about to be edited again)."""
+    V = model_vars(obj)
+    if len(V) > 9:
+        ctx.count("skipped:too-many-variables")
+        return None
+    pred = fill_pred(c, obj, L)
+    if pred is None:
+        absent_variable(ctx, c, obj)
+        return None
+    line = model_line(c, obj, pred, L)
+    d0 = copy.deepcopy(dict(obj))          # plain copy of the terms for the oracle
+    done = run_impl(c, obj, pred, L) if eager else None
+    return (c, L, obj, tag, pred, line, d0, V, done)
 
 def process(ctx, cases):
     prepared = []
@@ -691,36 +1096,47 @@ def process(ctx, cases):
         if c["family"] == "problem":
             run_problem(ctx, c)
             continue
+        if c["family"] == "raise":
+            run_raise(ctx, c)
+            continue
+        if c["family"] == "multi":
+            prepared += run_multi(ctx, c)
+            continue
         L = Labels(c["labels"])
         obj, tag = build(c)
         if tag is None:
             ctx.count("skipped:unusable")
             continue
-        V = model_vars(obj)
-        if len(V) > 9:
-            ctx.count("skipped:too-many-variables")
-            continue
-        pred = fill_pred(c, obj, L)
-        if pred is None:
-            absent_variable(ctx, c, obj)
-            continue
-        line = model_line(c, obj, pred, L)
-        d0 = copy.deepcopy(dict(obj))          # plain copy of the terms for the oracle
-        prepared.append((c, L, obj, tag, pred, line, d0, V))
+        e = prepare(ctx, c, L, obj, tag)
+        if e is not None:
+            prepared.append(e)
     models = common.run_driver([p[5] for p in prepared])
-    for (c, L, obj, tag, pred, line, d0, V), m in zip(prepared, models):
+    deferred, DEFERRED[:] = list(DEFERRED), []
+    for (line, finish), m in zip(deferred, common.run_driver([d[0] for d in deferred])):
         if "driver_error" in m:
             raise common.Infra("driver: %s on %s" % (m["driver_error"], json.dumps(line)[:300]))
-        impl, res, log = run_impl(c, obj, pred, L)
+        finish(m)
+    for (c, L, obj, tag, pred, line, d0, V, done), m in zip(prepared, models):
+        if "driver_error" in m:
+            raise common.Infra("driver: %s on %s" % (m["driver_error"], json.dumps(line)[:300]))
+        impl, res, log = done if done is not None else run_impl(c, obj, pred, L)
         model, argmin = canon_model(m, c)
         fam = c["family"]
-        rec = dict(c, valid=pred if pred["t"] != "table" else {"t": "table", "n": len(pred["xs"])})
+        if pred["t"] != "table":
+            rec = dict(c, valid=pred)
+        elif pred.get("src") == "nonmin":
+            rec = dict(c, valid={"t": "nonmin"})
+        else:
+            rec = dict(c, valid={"t": "table", "n": len(pred["xs"])})
+        small = {k: v for k, v in rec.items() if k != "multi"}
         spin = c["fn"] in SPIN_FN
         ctx.traces += 1
         ctx.count("%s:%s:%s:%s" % (fam, c["kind"], c["fn"] if c["via"] == "free" else "method", "all" if c["all"] else "one"))
-        ctx.count("pred:" + pred["t"])
+        ctx.count("pred:" + (pred.get("src") or pred["t"]))
         ctx.count("state:" + tag)
         ctx.count("nvars:%d" % len(V))
+        if c.get("labels") == "mixed":
+            ctx.count("labels:mixed:%d-types" % len({type(l).__name__ for l in V}))
         if len(V) > len(key_labels(d0)):
             ctx.count("labelled:cached-variable-without-term")
         if "err" in impl:
@@ -728,13 +1144,17 @@ def process(ctx, cases):
         elif "bad" not in impl:
             if c["via"] == "free":
                 ctx.count("result:" + ("None" if impl["obj"] is None else "value"))
+                if not key_labels(d0) and V == [] and not make_valid(pred, L)({}):
+                    # the corner where the property's clauses 3 and 4 overlap: constant model, valid({}) is False
+                    ctx.count("corner:constant-model+valid-rejects-{}:objective=%s"
+                              % ("None(clause 3)" if impl["obj"] is None else "the constant(clause 4)"))
             if c["all"] and "sol" in impl:
                 ctx.count("ties:%s" % min(len(impl["sol"]["many"]), 5))
             if model is not None and "err" not in model:
                 ctx.count("after-order:" + ("same" if canon_terms_ordered(obj, L) == m["res"]["after_order"] else "differs"))
         diff = compare(c, impl, model, argmin)
         n_valid = len(argmin) if argmin is not None and impl.get("obj", 1) is not None else 0
-        ctx.case(rec, nontrivial(c, d0, n_valid))
+        ctx.case(small, nontrivial(c, d0, n_valid))
         if diff:
             ctx.diff(fam, rec, impl, dict(model or {}, why=diff))
         if fam == "malformed":
@@ -775,6 +1195,13 @@ def gen_all(ctx):
     cases += [gen_hist_case(rng, "free", BO, "bhist") for _ in range(ctx.scale(200, 3000))]
     cases += [gen_hist_case(rng, "method", BO, "bhist") for _ in range(ctx.scale(150, 2000))]
     cases += problem_cases(rng, ctx.scale(150, 1500))
+    # round 3
+    cases += [mixify(gen_case(rng, rng.choice(["free", "method"])), rng) for _ in range(ctx.scale(500, 6000))]
+    cases += [mixify(gen_hist_case(rng, rng.choice(["free", "method"]), BO, "bhist"), rng) for _ in range(ctx.scale(150, 2000))]
+    cases += [huge_case(rng) for _ in range(ctx.scale(25, 400))]
+    cases += [tie_case(rng, rng.choice(["free", "method"])) for _ in range(ctx.scale(500, 6000))]
+    cases += [raise_case(rng) for _ in range(ctx.scale(500, 6000))]
+    cases += [multi_case(rng) for _ in range(ctx.scale(400, 5000))]
     return cases
 
 def check(ctx):
@@ -823,6 +1250,8 @@ def replay(ctx, payload):
     if not c:
         ctx.notes.append("replay file has no case; re-running the full check")
         return check(ctx)
+    if c.get("multi"):
+        c = c["multi"]                          # a call of a multi-call history: re-run the whole history
     if c.get("valid", {}).get("t") == "table" and "xs" not in c["valid"]:
         c = dict(c, valid={"t": "always"})      # the table is rebuilt from the object's constraints
     process(ctx, [c])
